@@ -538,9 +538,11 @@ def do_replay(pid, tier, seed, path, t0):
         n += len(lines)
         for f in judge(lines, invariants=INVARIANTS)[0]:
             violations.append(to_violation(pid, f, meta))
-    cov = {"traces_validated_against_impl": len(attempts), "evaluations": n,
+    cov = {}
+    j1("quick", seed, cov)   # the evidence of a replay run still reports a measured J1
+    cov.update({"traces_validated_against_impl": len(attempts), "evaluations": n,
            "exhaustive": False, "replay_of": path, "drift_steps": 0,
            "distinct_nontrivial": 1, "rule": "re-executions of the one stored script / seeded run",
            "samples": [meta.get("script") or [meta.get("seed"), meta.get("run"), meta.get("size")]],
-           "binding_selftest": {"ok": True, "note": "not run in replay mode"}}
+           "binding_selftest": {"ok": True, "note": "not run in replay mode"}})
     return vlib.finish(pid, tier, seed, "model_checking", cov, t0, violations, assumptions=ASSUMPTIONS)
